@@ -1076,6 +1076,41 @@ def _gen_features(r: random.Random) -> dict:
     }
 
 
+# Specialist profiles (swarm testing with themes): 30 % of the runs push the feature mix and the op
+# mix towards one family of hidden-state hazards that needs a rare conjunction of ingredients; the
+# other 70 % stay generic.  A profile only changes probabilities - every ingredient also occurs
+# in generic runs.
+PROFILES = ["router-growth", "low-version", "opt-slots", "identity", "decl-churn", "helper-interleave", "abi-cycles", "templates-consts"]
+KNOBS: dict = {}
+
+
+def _profile_knobs(profile, feats: dict) -> dict:
+    k = {"router_p": 0.4, "noise_p": 0.35, "natural_p": 0.25, "low_versions": False, "ss_on_p": None, "shared_S_p": 0.35, "same_opts_p": 0.3, "decl_churn": False, "uniform": False, "testctx_p": None, "ac_p": 0.25}
+    if profile == "router-growth":
+        feats.update({"abi": True})
+        k.update({"router_p": 0.9, "same_opts_p": 0.55})
+    elif profile == "low-version":
+        feats.update({"abi": False, "zoo": True, "named_tuples": False, "helpers": False})
+        k.update({"low_versions": True, "router_p": 0.0})
+    elif profile == "opt-slots":
+        feats.update({"globals": True, "reserved_slots": True, "dynvar": True, "multivalue": True, "cond": True, "max_nest": 2})
+        k.update({"ss_on_p": 0.7, "shared_S_p": 0.8, "testctx_p": 0.7})
+    elif profile == "identity":
+        k.update({"natural_p": 1.0, "ss_on_p": 0.6, "noise_p": 0.6})
+    elif profile == "decl-churn":
+        feats.update({"abi": True})
+        k.update({"decl_churn": True, "low_versions": False})
+    elif profile == "helper-interleave":
+        feats.update({"helpers": True, "abi": True})
+        k.update({"uniform": True})
+    elif profile == "abi-cycles":
+        feats.update({"abi": True, "recursion": True, "abi_recursion": True})
+    elif profile == "templates-consts":
+        feats.update({"tmpl": True, "consts": True})
+        k.update({"ac_p": 0.6})
+    return k
+
+
 def gen_opts(r: random.Random, spec: dict, *, native_fail=False, allow_sm=False) -> dict:
     minv = spec.get("minv", 2)
     if native_fail:
@@ -1097,14 +1132,19 @@ def gen_opts(r: random.Random, spec: dict, *, native_fail=False, allow_sm=False)
     v = r.choice([x for x in range(max(minv, 2), hi + 1)])
     if r.random() < 0.5:
         v = r.choice([x for x in (6, 7, 8, 8, 9, 10) if x >= minv] or [10])
+    if KNOBS.get("low_versions") and minv <= 6 and r.random() < 0.7:
+        v = r.choice([x for x in range(max(minv, 2), 8)])
+    if KNOBS.get("decl_churn") and minv <= 7 and r.random() < 0.6:
+        v = r.choice([x for x in (5, 6, 7) if x >= minv] or [7])
     o: dict = {"version": v}
-    if r.random() < 0.5:
+    ss_on = KNOBS.get("ss_on_p")
+    if r.random() < (0.5 if ss_on is None else 0.85):
         fp = r.choice([None, None, True, False]) if v >= 8 else r.choice([None, False])
-        ss = r.choice([None, True, False])
+        ss = r.choice([None, True, False]) if ss_on is None or r.random() > ss_on else True
         o["opt"] = {"fp": fp, "ss": ss}
-        if r.random() < 0.35:
-            o["opt"]["shared"] = r.choice([True, True, "S"])
-    if v >= 3 and r.random() < 0.25:
+        if r.random() < KNOBS.get("shared_S_p", 0.35):
+            o["opt"]["shared"] = r.choice([True, True, "S"]) if KNOBS.get("shared_S_p", 0.35) < 0.5 else r.choice([True, "S", "S"])
+    if v >= 3 and r.random() < KNOBS.get("ac_p", 0.25):
         o["ac"] = True
     if r.random() < 0.15:
         o["via_compile"] = True
@@ -1120,8 +1160,13 @@ def gen_plan(seed: int, cfg: dict) -> dict:
     r = sub_rng(seed, "plan")
     rr = sub_rng(seed, "recipes")
     feats = gen_features(rr)
+    profile = r.choice(PROFILES) if r.random() < 0.3 and not os.environ.get("SIM_NO_PROFILES") else None
+    KNOBS.clear()
+    KNOBS.update(_profile_knobs(profile, feats))
     enabled = [k for k in cfg.get("faults", []) if r.random() < 0.7]
     nsess = r.choice([1, 2, 2, 3, 3, 4])
+    if profile in ("helper-interleave", "identity", "decl-churn"):
+        nsess = max(nsess, 2)
     programs: dict = {}
     order: list[str] = []
     sessions: list[list[dict]] = []
@@ -1159,8 +1204,8 @@ def gen_plan(seed: int, cfg: dict) -> dict:
         ops: list[dict] = []
         nprog = r.choice([1, 1, 2])
         for _ in range(nprog):
-            is_noise = r.random() < 0.35 and nsess > 1
-            want_router = feats["abi"] and r.random() < 0.4
+            is_noise = r.random() < KNOBS["noise_p"] and nsess > 1
+            want_router = feats["abi"] and r.random() < KNOBS["router_p"]
             fault_sub = None
             prog_fault = None
             x = r.random()
@@ -1241,7 +1286,7 @@ def gen_plan(seed: int, cfg: dict) -> dict:
         live_targets.append(epid)
 
     # scheduler: seeded interleaving of the sessions (API-call granularity)
-    style = r.choice(["uniform", "uniform", "bursty", "sequential"])
+    style = "uniform" if KNOBS["uniform"] else r.choice(["uniform", "uniform", "bursty", "sequential"])
     merged: list[dict] = []
     idx = [0] * nsess
     cur = None
@@ -1263,7 +1308,7 @@ def gen_plan(seed: int, cfg: dict) -> dict:
 
     # some finished noise programs are dropped (all references released, collected): their
     # addresses - and with natural identities their id() values - are reused by later objects
-    natural_ids = r.random() < 0.25
+    natural_ids = r.random() < KNOBS["natural_p"]
     noise_pids = [p for p in order if not programs[p]["target"]]
     if noise_pids and r.random() < (0.6 if natural_ids else 0.2):
         for pid in r.sample(noise_pids, min(len(noise_pids), r.randrange(1, 3))):
@@ -1277,8 +1322,14 @@ def gen_plan(seed: int, cfg: dict) -> dict:
             n = r.choice([3, 17, 100, 300, 1000, 4000]) if what in ("slots", "vars") else (r.choice([20, 150, 300]) if what == "decls" else r.choice([2, 9, 40, 120]))
             merged.insert(r.randrange(0, len(merged) + 1), {"op": "churn", "what": what, "n": n})
 
+    if KNOBS["decl_churn"]:
+        # many declarations of unrelated programs evaluated and kept between a target's construction and one of its compiles
+        tc = [i for i, o in enumerate(merged) if o["op"] == "compile" and programs[o["p"]]["target"]]
+        for i in sorted(r.sample(tc, min(len(tc), 2)), reverse=True):
+            merged.insert(i, {"op": "churn", "what": "decls", "n": r.choice([150, 300, 300])})
+
     # unrelated test code in the process: the public comparison contexts, sometimes with a failure inside
-    if r.random() < (0.25 if enabled else 0.08):
+    if r.random() < (KNOBS["testctx_p"] if (KNOBS["testctx_p"] is not None and enabled) else (0.25 if enabled else 0.08)):
         for _ in range(r.randrange(1, 3)):
             merged.insert(r.randrange(0, len(merged) + 1), {"op": "testctx", "which": r.choice(["expr", "slot", "both"]), "inner": r.choice(["ok", "raise", "assert"]) if enabled else "ok"})
 
@@ -1372,6 +1423,7 @@ def gen_plan(seed: int, cfg: dict) -> dict:
     return {
         "seed": seed,
         "hr_seed": sub_rng(seed, "hr").getrandbits(32) if not os.environ.get("SIM_NO_HR_JITTER") else None,
+        "profile": profile,
         "features": feats,
         "faults_enabled": enabled,
         "schedule_style": style,
@@ -1386,7 +1438,7 @@ def gen_plan(seed: int, cfg: dict) -> dict:
 
 
 def _compile_op(r, spec, enabled, sm_run, prev: list | None = None) -> dict:
-    if prev and r.random() < 0.3:
+    if prev and r.random() < KNOBS.get("same_opts_p", 0.3):
         # the same options as an earlier compile of this program, with other activity in between
         o = json.loads(json.dumps(r.choice(prev)))
         o.pop("fault", None)
